@@ -657,6 +657,9 @@ impl<'de> Deserializer<'de> {
         V: Visitor<'de>,
     {
         self.unroll_type()?;
+        // As for principals: `empty <: service {..}` holds, but a wire type `empty` has no values, so only a
+        // service on the wire may be read as one.
+        check!(matches!(self.wire_type.as_ref(), TypeInner::Service(_)), "service");
         self.check_subtype()?;
         let mut bytes = vec![4u8];
         let id = PrincipalBytes::read(&mut self.input)?;
@@ -669,6 +672,7 @@ impl<'de> Deserializer<'de> {
         V: Visitor<'de>,
     {
         self.unroll_type()?;
+        check!(matches!(self.wire_type.as_ref(), TypeInner::Func(_)), "func");
         self.check_subtype()?;
         if !self.read_bool_val()? {
             return Err(Error::msg("Opaque reference not supported"));
